@@ -103,6 +103,10 @@ func (C16M1) Add(a, b int) int  { return a + b }
 func (C16M1) Two() (int, error) { return 0, nil }
 func (C16M1) Any() interface{}  { return nil }
 
+// near the fast-call shape, not it: a fixed parameter before `...interface{}`; and the shape itself
+func (C16M1) Mix(a int, rest ...interface{}) interface{} { return a + len(rest) }
+func (C16M1) Var(rest ...interface{}) interface{}        { return len(rest) }
+
 type C16M2 struct{ B int }
 
 func (C16M2) Foo() int    { return 2 }
@@ -136,6 +140,9 @@ type C16Funcs struct {
 	F1 func(int) string
 	FS func(string, bool) float64
 	FV func(...interface{}) interface{}
+	FX func(int, ...interface{}) interface{}    // NOT the fast shape: a fixed parameter before the variadic one
+	FY func(string, ...interface{}) interface{} // likewise
+	FZ func(...interface{}) int                 // NOT the fast shape: the result is not an interface
 	FI func(interface{}) interface{}
 	F2 func() (int, error)
 	FN func()
